@@ -27,3 +27,15 @@ def ensure_version_stub():
         m = types.ModuleType("multidecoder._version")
         m.version = m.__version__ = "0+verif"
         sys.modules["multidecoder._version"] = m
+
+
+def die_with_parent():
+    """preexec_fn for every child process the harness starts (Linux): the child gets SIGKILL when its parent dies, so a
+    killed check never leaves scanners, hang checks or fuzzers running."""
+    try:
+        import ctypes
+        import signal
+
+        ctypes.CDLL("libc.so.6", use_errno=True).prctl(1, signal.SIGKILL)  # PR_SET_PDEATHSIG
+    except Exception:
+        pass
